@@ -15,17 +15,48 @@ Proof.
   - injection H as ->. apply str_eqb_eq. reflexivity.
 Qed.
 
-(* on scalars == is equality, whichever side the scalar stands *)
-Lemma veq_scalar x y : scalar x = true -> (veq x y = true <-> x = y) /\ (veq y x = true <-> y = x).
+(* on scalars == is an equivalence that identifies 1, True and 1.0 (and 0, False, 0.0): two scalars are
+   == exactly when they have the same code, whichever side the scalar stands *)
+Inductive scode := SNum (z : Z) | SStr (s : str) | SBytes (s : str) | SNone | SOther.
+Definition code (v : val) : scode :=
+  match v with
+  | VInt z => SNum (2 * z)
+  | VBool b => SNum (if b then 2 else 0)
+  | VFloat h => SNum h
+  | VStr s => SStr s
+  | VBytes s => SBytes s
+  | VNone => SNone
+  | _ => SOther
+  end.
+
+Lemma veq_code x y : scalar x = true ->
+  (veq x y = true <-> code x = code y) /\ (veq y x = true <-> code y = code x).
 Proof.
-  intro S. destruct x; try discriminate; destruct y; simpl; (split; split; intro H);
-    try discriminate; try reflexivity; try congruence;
+  intro S. destruct x; try discriminate; destruct y; unfold code; cbn [veq num2]; (split; split; intro H);
+    try discriminate; try reflexivity;
     try (apply Z.eqb_eq in H; congruence); try (apply str_eqb_eq in H; congruence);
-    try (injection H as ->; apply Z.eqb_refl); try (injection H as ->; apply str_eqb_eq; reflexivity).
+    try (injection H as H; apply Z.eqb_eq; exact H); try (injection H as ->; apply str_eqb_eq; reflexivity).
 Qed.
 
 Lemma veq_refl_scalar x : scalar x = true -> veq x x = true.
-Proof. intro S. apply (veq_scalar x x S). reflexivity. Qed.
+Proof. intro S. apply (veq_code x x S). reflexivity. Qed.
+
+Lemma veq_sym_scalar x y : scalar x = true -> veq x y = veq y x.
+Proof.
+  intro S. apply eq_true_iff_eq. destruct (veq_code x y S) as [A B]. rewrite A, B. split; congruence.
+Qed.
+
+(* x == y: then x and y are == to the same values, on either side *)
+Lemma veq_cong_l x y z : scalar x = true -> scalar y = true -> veq x y = true -> veq x z = veq y z.
+Proof.
+  intros Sx Sy H. apply (veq_code x y Sx) in H. apply eq_true_iff_eq.
+  rewrite (proj1 (veq_code x z Sx)), (proj1 (veq_code y z Sy)), H. reflexivity.
+Qed.
+Lemma veq_cong_r x y z : scalar x = true -> scalar y = true -> veq y z = true -> veq x y = veq x z.
+Proof.
+  intros Sx Sy H. apply (veq_code y z Sy) in H. apply eq_true_iff_eq.
+  rewrite (proj1 (veq_code x y Sx)), (proj1 (veq_code x z Sx)), H. reflexivity.
+Qed.
 
 (* ---------- SameMembers ---------- *)
 Definition Sc (l : list val) : Prop := Forall (fun v => scalar v = true) l.
@@ -33,12 +64,16 @@ Definition Sc (l : list val) : Prop := Forall (fun v => scalar v = true) l.
 Lemma countv_cons x y l : countv x (y :: l) = (if veq x y then 1 else 0) + countv x l.
 Proof. unfold countv. simpl. destruct (veq x y); reflexivity. Qed.
 
+Lemma countv_cong x y l : scalar x = true -> scalar y = true -> veq x y = true -> countv x l = countv y l.
+Proof.
+  intros Sx Sy H. induction l as [|z l IH]; [reflexivity|].
+  rewrite !countv_cons, IH, (veq_cong_l x y z Sx Sy H). reflexivity.
+Qed.
+
 Lemma countv_notin x a : scalar x = true -> existsb (fun z => veq z x) a = false -> countv x a = 0.
 Proof.
   intros S. induction a as [|z a IH]; simpl; intro H; [reflexivity|].
-  apply orb_false_iff in H as [H1 H2]. rewrite countv_cons, (IH H2).
-  destruct (veq x z) eqn:E; [|reflexivity].
-  apply (veq_scalar x z S) in E. subst z. rewrite veq_refl_scalar in H1; [discriminate|exact S].
+  apply orb_false_iff in H as [H1 H2]. rewrite countv_cons, (IH H2), (veq_sym_scalar x z S), H1. reflexivity.
 Qed.
 
 Lemma countv_remove x y a : scalar x = true -> scalar y = true ->
@@ -47,7 +82,7 @@ Lemma countv_remove x y a : scalar x = true -> scalar y = true ->
 Proof.
   intros Sx Sy. induction a as [|z a IH]; simpl; intro H; [discriminate|].
   destruct (veq z y) eqn:E.
-  - apply (veq_scalar y z Sy) in E. subst z. rewrite countv_cons. lia.
+  - rewrite <- (veq_sym_scalar y z Sy) in E. rewrite countv_cons, (veq_cong_r x y z Sx Sy E). lia.
   - simpl in H. rewrite !countv_cons. specialize (IH H). lia.
 Qed.
 
@@ -73,17 +108,21 @@ Proof.
     destruct (existsb (fun z => veq z y) a) eqn:E.
     + pose proof (countv_remove x y a Sx Sy E). lia.
     + destruct (veq x y) eqn:Exy; [|lia].
-      apply (veq_scalar x y Sx) in Exy. subst y. rewrite (countv_notin x a Sx E). lia.
+      rewrite (countv_cong x y a Sx Sy Exy), (countv_notin y a Sy E). lia.
 Qed.
 
-Lemma countv_in x l : scalar x = true -> (1 <= countv x l <-> In x l).
+Lemma countv_in x l : scalar x = true -> In x l -> 1 <= countv x l.
 Proof.
-  intro Sx. induction l as [|y l IH]; [unfold countv; simpl; split; [lia|contradiction]|].
-  rewrite countv_cons. simpl. destruct (veq x y) eqn:E.
-  - apply (veq_scalar x y Sx) in E. subst. split; [left; reflexivity|lia].
-  - split.
-    + intro H. right. apply IH. lia.
-    + intros [->|H]; [rewrite veq_refl_scalar in E; [discriminate|exact Sx]|]. apply IH in H. lia.
+  intros Sx. induction l as [|y l IH]; [contradiction|]. rewrite countv_cons.
+  intros [->|H]; [rewrite (veq_refl_scalar x Sx); lia|]. apply IH in H. lia.
+Qed.
+
+Lemma countv_pos x l : 1 <= countv x l -> exists y, In y l /\ veq x y = true.
+Proof.
+  induction l as [|y l IH]; [unfold countv; simpl; lia|]. rewrite countv_cons.
+  destruct (veq x y) eqn:E.
+  - intros _. exists y. split; [left; reflexivity|exact E].
+  - intro H. destruct IH as [z [Hz Ez]]; [lia|]. exists z. split; [right; exact Hz|exact Ez].
 Qed.
 
 Lemma subtract_nil a b : Sc a -> Sc b ->
@@ -114,10 +153,14 @@ Proof.
     assert (Sx : scalar x = true).
     { destruct Hx as [Hx|Hx]; [apply (proj1 (Forall_forall _ _) SL)|apply (proj1 (Forall_forall _ _) SE)]; exact Hx. }
     destruct Hx as [Hx|Hx].
-    + pose proof (H2 x Hx). assert (In x e) by (apply (countv_in x e Sx); apply (countv_in x l Sx) in Hx; lia).
-      pose proof (H1 x H0). lia.
-    + pose proof (H1 x Hx). assert (In x l) by (apply (countv_in x l Sx); apply (countv_in x e Sx) in Hx; lia).
-      pose proof (H2 x H0). lia.
+    + pose proof (H2 x Hx) as L. pose proof (countv_in x l Sx Hx) as P.
+      destruct (countv_pos x e) as [y [Hy Ey]]; [lia|].
+      assert (Sy : scalar y = true) by (apply (proj1 (Forall_forall _ _) SE); exact Hy).
+      pose proof (H1 y Hy) as L'. rewrite <- (countv_cong x y e Sx Sy Ey), <- (countv_cong x y l Sx Sy Ey) in L'. lia.
+    + pose proof (H1 x Hx) as L. pose proof (countv_in x e Sx Hx) as P.
+      destruct (countv_pos x l) as [y [Hy Ey]]; [lia|].
+      assert (Sy : scalar y = true) by (apply (proj1 (Forall_forall _ _) SL); exact Hy).
+      pose proof (H2 y Hy) as L'. rewrite <- (countv_cong x y e Sx Sy Ey), <- (countv_cong x y l Sx Sy Ey) in L'. lia.
   - intro H. split; intros x Hx.
     + assert (E := H x (in_or_app _ _ _ (or_intror Hx))). apply Nat.eqb_eq in E. lia.
     + assert (E := H x (in_or_app _ _ _ (or_introl Hx))). apply Nat.eqb_eq in E. lia.
